@@ -54,6 +54,20 @@ structure FilterSpec where
   f : Float → Float
   support : Float
 
+/-- custom kernels of the harness (FilterType::Custom), same formulas on both sides:
+    `custom~lobes~<a>~<b>`  : a for |x| < 0.5, -b for 0.5 ≤ |x| < 1.5, 0 beyond; support 1.5   (f64 hex parameters)
+    `custom~wide~<s>`       : 1 for |x| < s, 0 beyond; support s
+    `custom~scaled~<k>`     : k * bilinear; support 1 -/
+def customFilter (name : String) : Option FilterSpec :=
+  let hexF (s : String) : Option Float := (parseHexNat s).map fun n => Float.ofBits (UInt64.ofNat n)
+  match name.splitOn "~" with
+  | ["custom", "lobes", a, b] => match hexF a, hexF b with
+    | some a, some b => some ⟨fun x => let x := x.abs; if x < 0.5 then a else if x < 1.5 then -b else 0.0, 1.5⟩
+    | _, _ => none
+  | ["custom", "wide", s] => (hexF s).map fun s => ⟨fun x => if x.abs < s then 1.0 else 0.0, s⟩
+  | ["custom", "scaled", k] => (hexF k).map fun k => ⟨fun x => k * bilinearFilter x, 1.0⟩
+  | _ => none
+
 def filterOfName : String → Option FilterSpec
   | "box" => some ⟨boxFilter, 0.5⟩
   | "bilinear" => some ⟨bilinearFilter, 1.0⟩
@@ -62,7 +76,7 @@ def filterOfName : String → Option FilterSpec
   | "mitchell" => some ⟨mitchellFilter, 2.0⟩
   | "gaussian" => some ⟨gaussianFilter, 3.0⟩
   | "lanczos3" => some ⟨lanczosFilter, 3.0⟩
-  | _ => none
+  | other => customFilter other
 
 /-- crate-private `Coefficients` -/
 structure Coeffs where
@@ -78,7 +92,7 @@ def Coeffs.empty : Coeffs := ⟨#[], 0, #[]⟩
 def precomputeCoefficients (inSize : Nat) (in0 in1 : Float) (outSize : Nat) (flt : FilterSpec) (adaptive : Bool) : Coeffs := Id.run do
   if inSize = 0 ∨ outSize = 0 then return Coeffs.empty
   let scale := (in1 - in0) / Float.ofNat outSize
-  if scale ≤ 0.0 then return Coeffs.empty
+  if scale < 0.0 || scale.isNaN then return Coeffs.empty
   let filterScale := if adaptive then (if scale < 1.0 then 1.0 else scale) else 1.0   -- scale.max(1.0)
   let filterRadius := flt.support * filterScale
   let windowSize := filterRadius.ceil.toUSize.toNat * 2 + 1
